@@ -75,6 +75,10 @@ class DetPool(object):
         errors = [None] * len(tasks)
         if not tasks:
             return results
+        if chunksize is not None and chunksize <= 0:
+            # what multiprocessing.pool does with an explicit chunk size <= 0: the MapResult is complete at once,
+            # no task ever runs and map() returns [None] * len(tasks)
+            return results
         n = min(self.size, len(tasks))
         prio = [w for w in self.schedule.get("prio", []) if w < n]
         prio += [w for w in range(n) if w not in prio]
